@@ -52,6 +52,14 @@ func postOps(m proto.Message) (note string) {
 			note += "not equal to its clone; "
 		}
 		_ = proj.Project(m.ProtoReflect(), proj.WrapNone)
+		// compared against a DIFFERENT valid message: the same value with every unknown-field set
+		// replaced by well-formed records of the same total length (so that the comparison goes
+		// past the length and byte-equality shortcuts and has to parse the accepted unknown bytes)
+		c2 := proto.Clone(m)
+		if replaceUnknowns(c2.ProtoReflect(), 0) > 0 {
+			_ = proto.Equal(m, c2)
+			_ = proto.Equal(c2, m)
+		}
 		// (the clone's bytes are not compared: a signalling float32 NaN is quieted by the
 		// float32->float64 conversion inside protoreflect.Value in every implementation)
 		b2, err2 := (proto.MarshalOptions{Deterministic: true}).Marshal(c)
@@ -63,6 +71,63 @@ func postOps(m proto.Message) (note string) {
 		note += "panic: " + p
 	}
 	return note
+}
+
+// validUnknown returns well-formed unknown records for md of exactly n >= 2 bytes.
+func validUnknown(md protoreflect.MessageDescriptor, n int) []byte {
+	num := protowire.Number(1)
+	for md.Fields().ByNumber(num) != nil || md.ReservedRanges().Has(num) {
+		num++
+	}
+	var out []byte
+	for n > 0 {
+		// one bytes record filling the rest if its length prefix works out, else a 2-3 byte varint record first
+		tl := protowire.SizeTag(num)
+		for k := n - tl - 1; k >= 0 && k >= n-tl-5; k-- {
+			if tl+protowire.SizeBytes(k) == n {
+				out = protowire.AppendTag(out, num, protowire.BytesType)
+				out = protowire.AppendBytes(out, make([]byte, k))
+				return out
+			}
+		}
+		if n < tl+1 {
+			return nil
+		}
+		out = protowire.AppendTag(out, num, protowire.VarintType)
+		out = protowire.AppendVarint(out, 1)
+		n -= tl + 1
+	}
+	return out
+}
+
+// replaceUnknowns rewrites every non-empty unknown set reachable from m (see postOps).
+func replaceUnknowns(m protoreflect.Message, depth int) (n int) {
+	if depth > 50 || !m.IsValid() {
+		return 0
+	}
+	if u := m.GetUnknown(); len(u) >= 2 {
+		if v := validUnknown(m.Descriptor(), len(u)); v != nil && string(v) != string(u) {
+			m.SetUnknown(v)
+			n++
+		}
+	}
+	m.Range(func(fd protoreflect.FieldDescriptor, v protoreflect.Value) bool {
+		switch {
+		case fd.IsMap() && fd.MapValue().Message() != nil:
+			v.Map().Range(func(_ protoreflect.MapKey, mv protoreflect.Value) bool {
+				n += replaceUnknowns(mv.Message(), depth+1)
+				return true
+			})
+		case fd.IsList() && fd.Message() != nil:
+			for i := 0; i < v.List().Len(); i++ {
+				n += replaceUnknowns(v.List().Get(i).Message(), depth+1)
+			}
+		case fd.Message() != nil && !fd.IsMap() && !fd.IsList():
+			n += replaceUnknowns(v.Message(), depth+1)
+		}
+		return true
+	})
+	return n
 }
 
 // tryUnmarshal decodes b into a fresh pulsar message and its dynamicpb twin.
@@ -138,7 +203,7 @@ func cmdParseReplay(args []string) {
 	}
 	sc := bufio.NewScanner(f)
 	sc.Buffer(make([]byte, 1<<20), 1<<28)
-	var n, wellFormedFirst, unmarshals, accepted int
+	var n, wellFormedFirst, unmarshals, accepted, laxAccepts int
 	for sc.Scan() {
 		line := sc.Text()
 		if !strings.HasPrefix(line, "BUF ") {
@@ -175,19 +240,28 @@ func cmdParseReplay(args []string) {
 			if serr != nil && sn != 0 {
 				emit(parseVerdict{Kind: "skip", In: e.B, Note: fmt.Sprintf("error with n=%d", sn)})
 			}
+			_, _, cn := protowire.ConsumeField(b)
 			if e.First.Ok && e.First.Wt != 4 {
 				wellFormedFirst++
-				_, _, cn := protowire.ConsumeField(b)
 				if cn != e.First.E {
 					emit(parseVerdict{Kind: "skip", In: e.B, Note: fmt.Sprintf("INTERNAL spec/protowire disagree: model %d protowire %d", e.First.E, cn)})
 				} else if serr != nil || sn != e.First.E {
 					emit(parseVerdict{Kind: "skip", In: e.B, Note: fmt.Sprintf("well-formed first record of length %d: Skip returned n=%d err=%v", e.First.E, sn, serr)})
 				}
 			}
-			// the machine model is exact on this alphabet: same error/no-error outcome and same n
-			// (lengths >= 2^31 are outside the model's integers: class "length" is left unconstrained)
-			if e.Skip.Err != "length" && ((e.Skip.Err == "") != (serr == nil) || (serr == nil && sn != e.Skip.N)) {
-				emit(parseVerdict{Kind: "skip", In: e.B, Note: fmt.Sprintf("Skip machine model says err=%q n=%d, code returned n=%d err=%v", e.Skip.Err, e.Skip.N, sn, serr)})
+			// the model is exact on this alphabet: same error/no-error outcome and same n (group
+			// nesting beyond the model's bound, class "depth", is outside the model); the reference
+			// parser must agree with the model before the code is judged
+			if e.Skip.Err != "depth" {
+				if (e.Skip.Err == "") != (cn > 0) || (cn > 0 && cn != e.Skip.N) {
+					emit(parseVerdict{Kind: "skip", In: e.B, Note: fmt.Sprintf("INTERNAL spec/protowire disagree: model err=%q n=%d, protowire %d", e.Skip.Err, e.Skip.N, cn)})
+				} else if e.Skip.Err == "" && (serr != nil || sn != e.Skip.N) {
+					emit(parseVerdict{Kind: "skip", In: e.B, Note: fmt.Sprintf("rejects-valid: model says n=%d, code returned n=%d err=%v", e.Skip.N, sn, serr)})
+				} else if e.Skip.Err != "" && serr == nil {
+					// C15 constrains Skip on well-formed input only; accepting malformed input is
+					// judged by its consequences (C06: the accepted message must be usable)
+					laxAccepts++
+				}
 			}
 		}
 		// --- Unmarshal totality
@@ -198,7 +272,7 @@ func cmdParseReplay(args []string) {
 			}
 		}
 	}
-	sum := map[string]any{"summary": true, "buffers": n, "wellformed_first": wellFormedFirst, "unmarshals": unmarshals, "accepted": accepted}
+	sum := map[string]any{"summary": true, "buffers": n, "wellformed_first": wellFormedFirst, "skip_accepts_malformed": laxAccepts, "unmarshals": unmarshals, "accepted": accepted}
 	sb, _ := json.Marshal(sum)
 	w.Write(sb)
 	w.WriteByte('\n')
